@@ -74,6 +74,11 @@ CLAIMED = {
    text="Histories to depth 4 (thorough 5) over 38 operations: key inputs sharing a key, Byron input, native-script inputs (inline / by reference with declared signers), Plutus inputs V1/V2/V3 (inline or reference script, witness or inline datum), collateral (same / different key), certificates of every witness class, key / native / Plutus withdrawals, five voter kinds, native and Plutus mints, required signers (new / already needed), explicit reference inputs (plain, with script size, equal to a regular input, with and without the de-duplication flag), extra datums, metadata. For every built transaction: each script-locked item has its script exactly once (witness set, or reference input present in body[18], never both unless another use supplies it inline), witness datums exactly the supplied ones once, one redeemer per Plutus use, and 0 <= full_size() - |transaction signed by exactly witsVKeyNeeded + one bootstrap witness per Byron address| < 101.",
    note="Trusted: notes/ledger_rules.md §4, ledger.rs. Script hashes recomputed by the harness with cryptoxide.",
    design="DESIGN.md §3 C18"),
+ "C08": dict(
+   technique="stateless model checking of the real selection code under a controlled source of randomness: every gen_range answer of the random-improve strategies is a choice point of the choice-tree explorer (E1, no deviation bound), crossed with a full product of scenarios",
+   text="4 strategies x 4 output configurations (one / two ADA outputs, asset A, assets A+B) x 3 implicit inputs (none / not covering / covering withdrawal) x 3 pre-existing-input situations (none, foreign, one that is also offered) x every offered subset of size <= 6 (thorough: all 128) of a 7-entry table (two equal ADA values, large, small, asset A, asset B, A+B) x offered order as listed / reversed x EVERY sequence of random answers (selection picks, improvement swaps, fee top-up). On Ok: inputs read back from the built body are distinct members of pre-existing + offered, pre-existing ones untouched, get_explicit_input equals the table sum, and table values + implicit input >= get_total_output + min_fee in lovelace and each asset; LargestFirst: top-k by coin, minimal (dropping its smallest pick uncovers), insufficiency only if everything offered does not suffice.",
+   note="Hook: RNG seam (verif_hooks::ChoiceRng). The right side of the coverage inequality uses the builder's min_fee/get_total_output (their correctness is C06/C05).",
+   design="DESIGN.md §3 C08"),
 }
 
 PENDING_REASON = "check not built yet in this session (work in progress; see DESIGN.md §8 construction order)"
